@@ -284,7 +284,8 @@ func TestRaceProviderPairs(t *testing.T) {
 	loadKeys()
 	HashSecret("s0")
 	HashSecret("s1")
-	ops := []string{"client_credentials", "authorize", "redeem", "refresh", "introspect", "revoke", "password", "device_authz", "par_push", "device_token"}
+	// the last two are ERROR paths: requests refused with the library's package-level sentinel errors, which every request shares
+	ops := []string{"client_credentials", "authorize", "redeem", "refresh", "introspect", "revoke", "password", "device_authz", "par_push", "device_token", "device_pending", "refused"}
 	fmt.Printf("RACE-PROBE provider ops=%d pairs=%d configs=4\n", len(ops), len(ops)*(len(ops)+1)/2)
 	defer func() { raceSession = func(sub string) fosite.Session { return NewSimSession(sub) } }()
 	for _, cfgKind := range []string{"default-constructed", "fully-populated", "shared-credentials", "library-session"} {
@@ -342,6 +343,12 @@ func TestRaceProviderPairs(t *testing.T) {
 							}
 							cr[g].dc = dres
 						}
+						// device codes that stay undecided: polling them is answered with the shared authorization_pending error
+						var pending [2]string
+						for g := 0; g < 2; g++ {
+							cs := &k.Clients[g]
+							pending[g] = app.deviceResp(url.Values{"client_id": {cs.ID}, "scope": {"photos"}}, &Basic{User: cs.ID, Pass: cs.Secret})
+						}
 						if cfgKind == "default-constructed" {
 							cfg.ScopeStrategy, cfg.AudienceMatchingStrategy, cfg.ClientSecretsHasher = nil, nil, nil // the prefix defaulted them; a fresh process starts with nil
 						}
@@ -370,6 +377,12 @@ func TestRaceProviderPairs(t *testing.T) {
 								app.device(url.Values{"client_id": {cs.ID}, "scope": {"photos"}}, basic)
 							case "device_token":
 								app.token(url.Values{"grant_type": {grantDevice}, "device_code": {cr[g].dc}}, basic)
+							case "device_pending":
+								app.token(url.Values{"grant_type": {grantDevice}, "device_code": {pending[g]}}, basic)
+							case "refused":
+								app.token(url.Values{"grant_type": {"refresh_token"}, "refresh_token": {"not-a-token"}}, basic)
+								app.token(url.Values{"grant_type": {"unknown_grant"}}, basic)
+								app.authorize(url.Values{"client_id": {cs.ID}, "response_type": {"bogus"}, "state": {"state-abcdefgh"}, "redirect_uri": {cs.RedirectURIs[0]}})
 							case "par_push":
 								app.par(url.Values{"client_id": {cs.ID}, "response_type": {"code"}, "state": {"state-abcdefgh"}, "redirect_uri": {cs.RedirectURIs[0]}}, basic)
 							}
